@@ -449,6 +449,28 @@ def ufunc_method_dispatch(run, rule, au=None):
     run.ob(rule, loc(au, raw[0] if raw else au.node), au.short, "non-differentiable ufuncs are invoked as getattr(ufunc, method) (reduce/outer/accumulate honoured)",
            not raw and bool(viaget), f"{len(viaget)} call(s) through getattr({uparam}, {mparam})" if not raw and viaget else
            f"`{uparam}(...)` is called directly: np.<ufunc>.outer/reduce/accumulate on tensors silently compute the plain element-wise call")
+    # keyword options handed to the NumPy ufunc must be plain arrays too: a Tensor-valued `where=` (mygrad.typing.Mask admits one) is an operand
+    # for NumPy's dispatch and comes straight back to __array_ufunc__ -- unbounded recursion.  The sibling dispatcher __array_function__ unwraps
+    # its keyword arguments; this one must as well
+    kwparam = au.node.args.kwarg.arg if au.node.args.kwarg else None
+    for c in viaget:
+        splats = [k for k in c.keywords if k.arg is None]
+        raw_kw = [k for k in splats if kwparam is not None and norm(k.value) == kwparam]
+        okk = True
+        why = "no keyword options forwarded"
+        if raw_kw:
+            # raw **kwargs is fine only if every Tensor value was replaced beforehand (kwargs = {k: v.data if isinstance(v, Tensor) else v ...})
+            cf_ = build_cfg(run, au)
+            from ..cfg import reaching_defs as _rd
+            at_ = cf_.stmt_node_containing(c)
+            defs_ = _rd(cf_, kwparam, at_) if at_ is not None else [ENTRY]
+            okk = ENTRY not in defs_ and all("isinstance(" in norm(getattr(cf_.stmt[d_], "value", ast.Constant(0))) and ".data" in norm(getattr(cf_.stmt[d_], "value", ast.Constant(0))) for d_ in defs_)
+            why = "kwargs re-built with tensors unwrapped before the call" if okk else f"**{kwparam} reaches NumPy as the caller gave it"
+        elif splats:
+            okk = all("isinstance(" in norm(k.value) and ".data" in norm(k.value) for k in splats)
+            why = "every keyword value is unwrapped (v.data if isinstance(v, Tensor) else v)" if okk else f"`**{norm(splats[0].value)[:40]}` is not an unwrapping of the options"
+        run.ob(rule, loc(au, c), au.short, "forwarded ufuncs receive their keyword options unwrapped", okk,
+               why if okk else why + ": a where= mask given as a Tensor is dispatched back to __array_ufunc__ (RecursionError); __array_function__ unwraps its kwargs")
 
 
 def _r11_5_af(run, af):
